@@ -108,6 +108,19 @@ def runSection (r : Report) (s : Section) : Report := Id.run do
         else r := r.addCover "rm-close-all-held-instances-closed-once"
       | _, _ => r := r.mismatch s.idx l.idx "unparsable-line" (joinSp (l.op ++ ["=>"] ++ l.obs))
   -- coverage counters
+  let via := kvStr s.cfg "via" ""
+  if via ≠ "" then
+    -- a user of SingleFlight driven through its own API (same monitor / model as ResourceManager.GetResource)
+    r := r.addCover s!"{via}-sections"
+    for o in h do
+      r := r.addCover s!"{via}-calls"
+      if o.ran && !o.serr then r := r.addCover s!"{via}-loaded"
+      if o.ran && o.serr then r := r.addCover s!"{via}-load-failed"
+      if !o.ran && o.err.isSome then r := r.addCover s!"{via}-joiner-got-leaders-error"
+      if !o.ran && o.val.isSome then
+        if h.any (fun l => some l.id = o.val && l.inv < o.ret && o.inv < l.ret && o.inv < l.fe.getD 0) then
+          r := r.addCover s!"{via}-joiner-got-leaders-value"
+        else r := r.addCover s!"{via}-got-cached-value"
   r := r.addCover s!"{mode}-sections"
   if mode = "rm" && kvStr s.cfg "sfd" "-" ≠ "-" then r := r.addCover "rm-sections-delayed-flight-entry"
   for o in h do
